@@ -170,3 +170,29 @@ Definition call_outcome (v : verdict) : outcome :=
   match v with VPass => HandlerRuns | VReject c => ErrorReply c end.
 Definition push_outcome (v : verdict) : outcome :=
   match v with VPass => HandlerRuns | VReject _ => Dropped end.
+
+(* ---- one ticker goroutine (the configuration of the code as long as the interval is
+        not changed): a tick starts only when no updateToken is in progress ---- *)
+Definition is_loaded (p : tpc) : Z := match p with QTickLoaded _ _ _ _ => 1 | _ => 0 end.
+
+Definition one_ticker (s : qstate) (e : qev) : bool :=
+  match e with
+  | QTick _ => sumz is_loaded (q_th s) =? 0
+  | _ => true
+  end.
+
+Fixpoint qrun1 (cas : bool) (s : qstate) (tr : list qev) : option (qstate * list qobs) :=
+  match tr with
+  | [] => Some (s, [])
+  | e :: r =>
+      if one_ticker s e then
+        match qstep cas s e with
+        | Some (s1, o) =>
+            match qrun1 cas s1 r with
+            | Some (s2, os) => Some (s2, o :: os)
+            | None => None
+            end
+        | None => None
+        end
+      else None
+  end.
